@@ -29,7 +29,16 @@ RULE = ("Single op codes: every implemented op code (and a set of unknown ones) 
         "counts as a violation unless it is the KeyError of the table look-up for a command that is no implemented op code "
         "(unknown / disabled op codes, ELSE / ENDIF outside a conditional). Every op code as a whole script at every stack "
         "depth 0..arity+1; minimal pushes -4..20; Locktime / Sequence class API on all pairs of boundary values; the two "
-        "dispatch tables compared entry by entry.")
+        "dispatch tables compared entry by entry. Every single-op-code, op_if and Script.evaluate case is ALSO compared with the "
+        "failure-mode model (Model/OpMode.v: stacks / returned False / KeyError / IndexError / ValueError). Every program is "
+        "also judged against consensus WITH its resource limits (Spec/ConsensusLimits.v) when it lies inside the static bounds "
+        "of C07_limits_unreachable; the four witnesses beyond the bounds (521-byte push, 202 NOPs, 1001 items, 10460-byte "
+        "script) and their in-bounds neighbours are correspondence cases. Locktime / Sequence classes: every pair of "
+        "boundary values and random pairs against the model (Model/Timelock.v) and against the extracted BIP65/68/112 spec "
+        "(Spec/Timelocks.v); constructors from_relative_time / from_relative_blocks in range, at the 16-bit edge, beyond "
+        "it and negative; parse on 0..6-byte streams. Small-number helpers (number_to_op_code, op_code_to_number, "
+        "encode_minimal_num) for -5..129 and large / random numbers against Model/OpNum.v; the prefix "
+        "<encode_minimal_num(n)> CLTV|CSV DROP 1 for every operand class x context class.")
 TRUSTED = ["hashlib (ripemd160, sha1, sha256) — the hash op codes call the same hashlib through the oracle; the "
            "theorems quantify over arbitrary hash functions",
            "Spec/Consensus.v is a hand transcription of Bitcoin Core's EvalScript for the implemented op code set "
@@ -39,9 +48,11 @@ TRUSTED = ["hashlib (ripemd160, sha1, sha256) — the hash op codes call the sam
 ASSUMPTIONS = ["the transaction context is a Tx with 1..3 TxIns (the evaluated one at a varying index, with the sentinel witness, no "
                "witness or a real witness): 0 <= locktime, sequence < 2^32, 0 <= version < 2^32",
                "the signature op codes 172-175/186 are outside the op code set of this property (C06 covers them)",
-               "consensus resource limits (520-byte pushes, 10000-byte scripts, 201 op codes, 1000 stack items) are "
-               "outside the modelled semantics: the spec answers OutOfScope for pushes > 520 bytes and scripts > 10000 "
-               "bytes, and the <= 40 operations quantifier keeps the other two out of reach"]
+               "consensus resource limits (520-byte pushes, 10000-byte scripts, 201 op codes, 1000 stack items): the library "
+               "enforces none of them (C07_resource_limits_refuted).  Spec/Consensus.v answers OutOfScope for pushes > 520 "
+               "bytes and scripts > 10000 bytes and does not count op codes / stack items; Spec/ConsensusLimits.v has all "
+               "four, and C07_limits_unreachable proves that they cannot fire inside the static bounds that contain every "
+               "program of <= 40 operations with pushes <= 520 bytes"]
 BUDGET_S = {"quick": 600, "thorough": 3000}
 
 bscript.print = lambda *a, **k: None        # Script.evaluate prints "bad op" on every failure
@@ -137,6 +148,103 @@ def i_op_if(neg, st, items):
     return [stack, its]
 
 
+EXN_CODE = {KeyError: 11, IndexError: 12, ValueError: 13}
+
+
+def _mode(fn):
+    """run fn(); an exception of one of the three modelled classes becomes its code (Model/OpMode.v: 11 KeyError,
+    12 IndexError, 13 ValueError), any other exception stays an exception (= a disagreement with the model)"""
+    try:
+        return fn()
+    except _Fail:
+        return 0
+    except ImplTimeout:
+        raise
+    except Exception as e:  # noqa
+        if type(e) in EXN_CODE:
+            return EXN_CODE[type(e)]
+        raise
+
+
+def i_op_mode(o, st, alt, lt, sq, ver):
+    """one integer command with its failure mode: [stack, alt] / 0 (returned False) / 11.. (raised)"""
+    def go():
+        stack, a = list(st), list(alt)
+        fn = bop.OP_CODE_FUNCTIONS[o]          # the look-up of Script.evaluate: KeyError for a command not in the table
+        tx = mk_tx(lt, sq, ver)
+        ok = fn(stack, a) if o in (107, 108) else fn(stack, tx, tx.verif_idx) if o in TX_OPS else fn(stack)
+        return [stack, a] if ok else 0
+    return _mode(go)
+
+
+def i_op_if_mode(neg, st, items):
+    def go():
+        stack, its = list(st), list(items)
+        return [stack, its] if (bop.op_notif if neg else bop.op_if)(stack, its) else 0
+    return _mode(go)
+
+
+def i_evaluate_mode(cmds, lt, sq, ver, ap=0, aw=0):
+    """Script.evaluate with its failure mode: 1 True, 0 False, 2 special case entered, 11.. the exception class"""
+    wit = 0 if aw else (len(cmds) + lt + sq + ver) % 3
+    tx = mk_tx(lt, sq, ver, wit)
+    saved = bscript.encode_varstr
+    bscript.encode_varstr = _raise_special
+    try:
+        return _mode(lambda: 1 if Script(list(cmds)).evaluate(tx, tx.verif_idx, allow_p2sh=bool(ap),
+                                                               allow_witness=bool(aw)) else 0)
+    except _Special:
+        return 2
+    finally:
+        bscript.encode_varstr = saved
+
+
+# ---- the classes of buidl/timelock.py, in the shape of the dispatcher ops "timelock", "timelock_ctor", "timelock_parse"
+
+def _res(fn):
+    """value / ValueError -> the canonical error"""
+    from vp.sexp import ERR
+    try:
+        return fn()
+    except ValueError:
+        return ERR
+
+
+def i_timelock(a, b):
+    from buidl.timelock import Locktime, Sequence
+    out = [_res(lambda: int(Locktime(a))), _res(lambda: int(Sequence(a)))]
+    if not (0 <= a <= U32 and 0 <= b <= U32):
+        return out + [[]]
+    la, lb, sa, sb = Locktime(a), Locktime(b), Sequence(a), Sequence(b)
+    out.append([
+        la.serialize(), sa.serialize(),
+        bool(la.is_comparable(lb)), _res(lambda: bool(la < lb)), bool(la < b),
+        la.block_height(), la.mtp(),
+        bool(sa.is_relative()), bool(sa.is_relative_time()), bool(sa.is_relative_block()),
+        bool(sa.is_max()), bool(sa.is_rbf_able()),
+        sa.relative_blocks(), sa.relative_time(),
+        bool(sa.is_comparable(sb)), _res(lambda: bool(sa < sb)), bool(sa < b),
+    ])
+    return out
+
+
+def i_timelock_ctor(n):
+    from buidl.timelock import Locktime, Sequence
+    return [_res(lambda: int(Sequence.from_relative_time(n))), _res(lambda: int(Sequence.from_relative_blocks(n))),
+            int(Locktime()), int(Sequence())]
+
+
+def i_timelock_parse(s):
+    from io import BytesIO
+    from buidl.timelock import Locktime, Sequence
+    return [_res(lambda: int(Locktime.parse(BytesIO(s)))), _res(lambda: int(Sequence.parse(BytesIO(s))))]
+
+
+def i_op_num(n):
+    return [_res(lambda: bop.number_to_op_code(n)), _res(lambda: bop.number_to_op_code_byte(n)),
+            _res(lambda: bop.op_code_to_number(n)), _res(lambda: bop.encode_minimal_num(n))]
+
+
 def table_miss(e):
     """the one exception the interpreter raises by construction: the look-up of a command that is not in its op
     code table (disabled / reserved / unknown op codes, OP_ELSE / OP_ENDIF met outside a conditional)"""
@@ -223,6 +331,13 @@ IMPL = {
     "op": i_op,
     "op_if": i_op_if,
     "evaluate": run_evaluate,
+    "op_mode": i_op_mode,
+    "op_if_mode": i_op_if_mode,
+    "evaluate_mode": i_evaluate_mode,
+    "timelock": i_timelock,
+    "timelock_ctor": i_timelock_ctor,
+    "timelock_parse": i_timelock_parse,
+    "op_num": i_op_num,
 }
 
 # ---------------------------------------------------------------- the extracted spec as oracle
@@ -562,6 +677,53 @@ def p_timelock_api(a, b):
     return None
 
 
+def p_timelock_spec(a, b):
+    """the classes Locktime / Sequence against the extracted Spec/Timelocks.v (BIP65 kinds, BIP68 meaning of a
+    sequence value, BIP112 comparability and masked comparison) — the statements of C07_locktime_bip65,
+    C07_sequence_bip68, C07_sequence_bip112 evaluated on the implementation"""
+    from buidl.timelock import Locktime, Sequence
+    if not (0 <= a <= U32 and 0 <= b <= U32):
+        return None
+    meaning, comparable, val_lt, same_kind = spec("spec_bip68", a, b)
+    la, lb, sa, sb = Locktime(a), Locktime(b), Sequence(a), Sequence(b)
+    kind = meaning[0]
+    checks = [
+        ("is_relative", bool(sa.is_relative()), kind != 0),
+        ("is_relative_block", bool(sa.is_relative_block()), kind == 1),
+        ("is_relative_time", bool(sa.is_relative_time()), kind == 2),
+        ("relative_blocks", sa.relative_blocks(), meaning[1] if kind == 1 else None),
+        ("relative_time", sa.relative_time(), meaning[1] if kind == 2 else None),
+        ("Sequence.is_comparable", bool(sa.is_comparable(sb)), bool(comparable)),
+        ("Locktime.is_comparable", bool(la.is_comparable(lb)), bool(same_kind)),
+    ]
+    for nm, got, want in checks:
+        if got != want or (got is None) != (want is None):
+            return f"{nm} of {a} (against {b}) = {got!r}, BIP65/68/112 say {want!r}"
+    m = _expect(f"Sequence({a}) < Sequence({b})", lambda: sa < sb, bool(val_lt) if comparable else ValueError)
+    if m:
+        return m
+    return _expect(f"Locktime({a}) < Locktime({b})", lambda: la < lb, (a < b) if same_kind else ValueError)
+
+
+def p_eval_lim(cmds, lt, sq, ver, ap=0, aw=0):
+    """Script.evaluate against consensus WITH its resource limits (Spec/ConsensusLimits.v: 520-byte pushes, 201 op
+    codes, 1000 stack items, 10000-byte scripts).  Inside the static bounds of C07_limits_unreachable no limit can
+    fire and the verdicts must agree; beyond them the library, which enforces none of the limits, is not judged
+    here (C07_resource_limits_refuted states the divergence; the corr cases pin the library's behaviour)."""
+    want, within = spec("spec_eval_lim", cmds, lt, sq, ver, ap, aw)
+    if want == 2 or not within:
+        return None
+    got, exc = eval_outcome(cmds, lt, sq, ver, ap, aw)
+    if got == 2:
+        return "Script.evaluate entered a P2SH/witness special case on a script the spec does not exclude"
+    if got != want:
+        return (f"Script.evaluate {'accepts' if got else 'rejects'}, consensus with resource limits "
+                f"{'accepts' if want else 'rejects'} (script within the static bounds)")
+    if exc:
+        return f"Script.evaluate raises {exc} on a script that consensus rejects: {RAISES}"
+    return None
+
+
 # BIP342: the op codes that make a tapscript succeed unconditionally
 OP_SUCCESS = {80, 98} | set(range(126, 130)) | set(range(131, 135)) | {137, 138, 141, 142} | set(range(149, 154)) \
     | set(range(187, 255))
@@ -602,7 +764,7 @@ def p_tables():
 PROPS = {"codec_int": p_codec_int, "codec_bytes": p_codec_bytes, "op": p_op, "eval": p_eval,
          "eval_reuse": p_eval_reuse, "eval_seq": p_eval_seq, "op_seq": p_op_seq, "minimal_push": p_minimal_push,
          "op_code_to_number": p_op_code_to_number, "timelock_api": p_timelock_api, "tables": p_tables,
-         "eval_defaults": p_eval_defaults}
+         "eval_defaults": p_eval_defaults, "timelock_spec": p_timelock_spec, "eval_lim": p_eval_lim}
 
 
 def _impl_is_model(fn, args):
@@ -623,7 +785,7 @@ def classify(v):
         return None
     if v["name"] == "op" and v["args"][0] == 113:
         return "K-C07-2rot" if _impl_is_model("op", v["args"]) else None
-    if v["name"] == "eval" and any(isinstance(c, int) and c == 113 for c in v["args"][0]):
+    if v["name"] in ("eval", "eval_lim") and any(isinstance(c, int) and c == 113 for c in v["args"][0]):
         return "K-C07-2rot" if _impl_is_model("evaluate", v["args"]) else None
     return None
 
@@ -681,6 +843,7 @@ def pad_num(n, size):
 
 def both_op(o, st, alt, c=CTX0):
     yield ("corr", "op", [o, st, alt, c[0], c[1], c[2]])
+    yield ("corr", "op_mode", [o, st, alt, c[0], c[1], c[2]])      # returns False vs raises (Model/OpMode.v)
     yield ("prop", "op", [o, st, alt, c[0], c[1], c[2]])
 
 
@@ -808,7 +971,9 @@ def mutate(r, cmds):
 
 def both_eval(cmds, c, ap=0, aw=0):
     yield ("corr", "evaluate", [cmds, c[0], c[1], c[2], ap, aw])
+    yield ("corr", "evaluate_mode", [cmds, c[0], c[1], c[2], ap, aw])
     yield ("prop", "eval", [cmds, c[0], c[1], c[2], ap, aw])
+    yield ("prop", "eval_lim", [cmds, c[0], c[1], c[2], ap, aw])
     if ap and aw:
         yield ("prop", "eval_defaults", [cmds, c[0], c[1], c[2]])
 
@@ -918,6 +1083,10 @@ def generate(ctx):
     for o in list(range(-2, 100)) + [127, 128, 255, 256]:
         ctx.label("codec/op-code-to-number")
         yield ("prop", "op_code_to_number", [o])
+    for n in list(range(-5, 130)) + [255, 256, 2 ** 31 - 1, 2 ** 31, 2 ** 32, -(2 ** 31), 2 ** 63] + \
+            [r.randrange(-2 ** 40, 2 ** 40) for _ in range(ctx.n(100, 2000))]:
+        ctx.label("codec/small-number-helpers-model")
+        yield ("corr", "op_num", [n])
     yield ("prop", "tables", [])
     edge = [0x00, 0x01, 0x7F, 0x80, 0x81, 0xFF]
     strs = [b""] + [bytes([a]) for a in range(256)]
@@ -1021,6 +1190,13 @@ def generate(ctx):
             yield from both_eval([e, o], c)
     for o in (177, 178):
         yield from both_op(o, [], [], (0, 0, 2))
+    # C07_cltv_commands / C07_csv_commands: the prefix <encode_minimal_num(n)> CLTV|CSV DROP (buidl/taproot.py) with
+    # the LIBRARY's encode_minimal_num, for every operand class x context class
+    for o in (177, 178):
+        for n in [x for x in OPERANDS if x >= 0] + list(range(0, 18)) + [r.randrange(2 ** 32) for _ in range(ctx.n(40, 800))]:
+            for c in [rctx(r) for _ in range(ctx.n(3, 12))] + [(n, 0, 2), (max(n - 1, 0), 5, 2), (0, n, 2), (0, n ^ 1, 2)]:
+                ctx.label("timelock/minimal-push-commands")
+                yield from both_eval([bop.encode_minimal_num(n), o, 117, 81], c)
 
     # the Locktime / Sequence classes themselves: every pair over the boundary values of both types
     vals = sorted(set(LOCKTIMES + SEQUENCES + OPERANDS + [-2, 2 ** 32, 2 ** 32 + 1, 0xFFFE, (1 << 22) | 0xFFFE, 511 << 7, 512 << 7, 513 << 7,
@@ -1036,6 +1212,30 @@ def generate(ctx):
         ctx.label("timelock/class-api-random")
         yield ("prop", "timelock_api", [a, b])
 
+    # the class API against the model (Model/Timelock.v) and against the extracted BIP65/68/112 spec
+    for a in vals:
+        for b in vals:
+            ctx.label("timelock/class-model-grid")
+            yield ("corr", "timelock", [a, b])
+            yield ("prop", "timelock_spec", [a, b])
+    for _ in range(ctx.n(400, 8000)):
+        a = r.choice(vals) if r.random() < 0.3 else r.randrange(2 ** 32)
+        b = r.choice([a, a ^ (1 << 22), a ^ (1 << 31), a ^ 1, (a & ~0xFFFF) | r.getrandbits(16), r.randrange(2 ** 32)])
+        ctx.label("timelock/class-model-random")
+        yield ("corr", "timelock", [a, b])
+        yield ("prop", "timelock_spec", [a, b])
+    # constructors: in range, at the 16-bit edge, beyond it (C07_from_relative_unchecked_refuted: no validation), negative
+    ctor = [-513, -512, -1, 0, 1, 511, 512, 513, 0xFFFF, 0x10000, 0x10001, 511 * 0x10000, 512 * 0xFFFF, 512 * 0x10000 - 1,
+            512 * 0x10000, 512 * 0x10000 + 512, 1 << 22, (1 << 22) * 512, 1 << 31, (1 << 31) * 512, (1 << 31) - 1,
+            2 ** 32 - 1, 2 ** 32, 2 ** 32 * 512 - 1, 2 ** 32 * 512, 2 ** 41]
+    for n in ctor + [r.randrange(-1000, 2 ** 42) for _ in range(ctx.n(200, 4000))]:
+        ctx.label("timelock/constructors")
+        yield ("corr", "timelock_ctor", [n])
+    for k in range(0, 7):
+        for _ in range(ctx.n(8, 200)):
+            ctx.label("timelock/parse")
+            yield ("corr", "timelock_parse", [r.choice([b"\x00", b"\xff", b"\x80"]) * k if r.random() < 0.3 else ctx.rbytes(k)])
+
     # ------------------------------------------------ IF / NOTIF splicing alone (model vs implementation)
     for _ in range(ctx.n(1500, 30000)):
         g = ProgGen(r)
@@ -1046,7 +1246,9 @@ def generate(ctx):
             items.insert(r.randrange(len(items) + 1), 104)
         st = [rnum_elem(r) for _ in range(r.randrange(0, 3))]
         ctx.label("op_if/random-items")
-        yield ("corr", "op_if", [r.randrange(2), st, items])
+        neg = r.randrange(2)
+        yield ("corr", "op_if", [neg, st, items])
+        yield ("corr", "op_if_mode", [neg, st, items])
 
     # ------------------------------------------------ programs
     fixed = [
@@ -1070,6 +1272,11 @@ def generate(ctx):
               [81, 99, b"x", 104, 169, h20, 135], [81, 99, b"x", 169, h20, 135, 104], [b"x", 81, 99, 169, h20, 135, 104],
               [81, 99, b"x", 169, 104, h20, 135], [b"x", 118, 169, h20, 135], [169, b"x", h20, 135],
               [b"x" * 520], [b"x" * 521], [b"x" * 521, 117, 81]]
+    # ill-nested lists of C07_ill_nested_examples / C07_reject_returns_false_refuted (stray ELSE / ENDIF: KeyError;
+    # unterminated IF: False), and the four witnesses of C07_resource_limits_refuted (the library accepts)
+    fixed += [[81, 103], [81, 99, 81], [0, 99, 104, 104, 81], [0, 99, 99, 104, 81], [81, 106, 103], [0, 99, 103, 103], [81, 100],
+              [b"\x01" * 521], [81] + [97] * 202, [81] * 1001, [b"\x01" * 520] * 20,
+              [81] + [97] * 201, [81] * 1000, [81] * 333, [81] * 334, [b"\x01" * 520] * 19]
     for cmds in fixed:
         ctx.label("program/fixed")
         for ap, aw in ((0, 0), (1, 1), (1, 0), (0, 1)):
